@@ -191,7 +191,7 @@ def singlelane_component(ck):
     FIFO; this leg checks that the real class refines it (design: SingleLane.tla incl. AtomicQ; code: traces of the real class)."""
     thorough = ck.tier == 'thorough'
     ck.l1('SingleLane (component)/mutex + two conditions refine the atomic bounded FIFO', 'SingleLane',
-          sl_cfg(SL_INV, ['AtomicQ'], maxops=2), may_skip=('Next', 'Idle'))
+          sl_cfg(SL_INV, ['AtomicQ', 'ClosedRefuses'], maxops=2, maxcap=1), may_skip=('Next', 'Idle'))
     singlelane_conformance(ck, 400 if thorough else 50, 4, False, salt=73)
 
 
@@ -200,7 +200,7 @@ def x04(ck, replay=None):
     from mbt.bind import singlelane as SB
     thorough = ck.tier == 'thorough'
     ck.l1('SingleLane/1 writer 1 reader: every program of <= %d attempts per side x modes x capacities' % (3 if thorough else 2),
-          'SingleLane', sl_cfg(SL_INV, ['AtomicQ'], maxops=3 if thorough else 2), may_skip=('Next', 'Idle'), timeout=2400)
+          'SingleLane', sl_cfg(SL_INV, ['AtomicQ', 'ClosedRefuses'], maxops=3 if thorough else 2), may_skip=('Next', 'Idle'), timeout=2400)
     ck.l1('SingleLane/liveness under fair scheduling', 'SingleLane',
           sl_cfg([], ['AllDone', 'WriterProgress', 'ReaderProgress'], spec='FairSpec', maxops=2, maxcap=2 if thorough else 1),
           coverage=False, timeout=2400)
@@ -208,7 +208,7 @@ def x04(ck, replay=None):
                  sl_cfg(['WaitsOnlyWhenFull'], notify_always=False), 'invariant', 'WaitsOnlyWhenFull')
     ck.sensitive('two writers: `if` instead of `while` around the wait lets the queue exceed maxsize (the documented restriction)',
                  'SingleLane', sl_cfg(['Bound'], nw=2, init='InitTwoWriters'), 'invariant', 'Bound')
-    for goal in ('Trap_SwallowedNotify', 'Trap_FailWithRoom', 'Trap_WriterWoken', 'Trap_ReaderWoken'):
+    for goal in ('Trap_SwallowedNotify', 'Trap_FailWithRoom', 'Trap_WriterWoken', 'Trap_ReaderWoken', 'Trap_RefusedWhilePeerBlocked'):
         ck.trap(goal, 'SingleLane', sl_cfg([goal], maxops=2 if goal != 'Trap_FailWithRoom' else 3, maxcap=1))
     singlelane_conformance(ck, 1200 if thorough else 150, 8 if thorough else 4, thorough)
     ck.assumptions += ['one writer thread and one reader thread (what the class is documented for, and how the library uses it); '
